@@ -798,7 +798,7 @@ def _build_tree_reduce_expr(
     )
 
 
-def _accept_slice_impl(slice_expr, input_array, reduced_axes, keepdims, make_result):
+def _accept_slice_impl(slice_expr, input_array, reduced_axes, keepdims, make_result, absorb=False):
     """Shared implementation for slice pushdown through reductions.
 
     Parameters
@@ -865,7 +865,20 @@ def _accept_slice_impl(slice_expr, input_array, reduced_axes, keepdims, make_res
         return None
 
     # Apply the slice to the input
-    sliced_input = new_collection(input_array)[input_index]
+    if absorb:
+        # The input's blocks are reduction intermediates (dicts of partial
+        # results for mean/var, arbitrary objects for custom reductions), not
+        # arrays, so a slice node must never come to rest on them: only push
+        # when the input takes the slice into itself right away.
+        accept = getattr(input_array, "_accept_slice", None)
+        pushed = None
+        if accept is not None:
+            pushed = accept(SliceSlicesIntegers(input_array, input_index, slice_expr.allow_getitem_optimization))
+        if pushed is None or isinstance(pushed, SliceSlicesIntegers):
+            return None
+        sliced_input = new_collection(pushed)
+    else:
+        sliced_input = new_collection(input_array)[input_index]
 
     # Don't push slice through if it would create empty arrays on non-reduced axes
     for ax in range(input_ndim):
@@ -1076,4 +1089,4 @@ class PartialReduce(ArrayExpr):
                 self.reduced_meta,
             )
 
-        return _accept_slice_impl(slice_expr, self.array, reduced_axes, self.keepdims, make_result)
+        return _accept_slice_impl(slice_expr, self.array, reduced_axes, self.keepdims, make_result, absorb=True)
